@@ -145,6 +145,66 @@ def check_gaussian_rng():
                         bad(f"gaussian heterodyne on mode {k}: reported sample {samp[0, 0]}, drawn outcome alpha {exp}")
 
 
+def check_fock_homodyne_rng():
+    """Fock simulator, SAMPLED homodyne at an oblique angle: the probability vector handed to numpy.random.multinomial is the
+    Born distribution of x_phi of the measured mode (mean / variance against the Gaussian representation), the reported sample
+    is the drawn grid point, and the other modes are left in the state conditioned on THAT outcome (compared with the Gaussian
+    simulator post-selected on the same value)."""
+    cut = 10
+    n = 2
+    for k in range(n):
+        for phi in (0.0, 0.7, np.pi / 2, -np.pi / 2):
+            EVAL[0] += 1
+            rec = {}
+            orig = np.random.multinomial
+
+            def fake(nn, pvals, size=None):
+                p = np.array(pvals, dtype=float)
+                rec["p"] = p
+                idx = int(np.searchsorted(np.cumsum(p), 0.7))
+                rec["idx"] = idx
+                out = np.zeros(len(p), dtype=int)
+                out[idx] = 1
+                return out
+            prog = sf.Program(n)
+            with prog.context as q:
+                prep(q, n)
+                ops.MeasureHomodyne(phi) | q[k]
+            np.random.multinomial = fake
+            try:
+                res = sf.Engine("fock", backend_options={"cutoff_dim": cut}).run(prog)
+            finally:
+                np.random.multinomial = orig
+            label = f"fock sampled homodyne(phi={phi:.3f}) on mode {k} of {n}"
+            if "p" not in rec:
+                bad(f"{label}: numpy.random.multinomial was not used")
+                continue
+            grid = np.linspace(-10, 10, len(rec["p"]))
+            mean = float(np.sum(rec["p"] * grid))
+            var = float(np.sum(rec["p"] * grid ** 2) - mean ** 2)
+            progg = sf.Program(n)
+            with progg.context as q:
+                prep(q, n)
+            mg, vg = sf.Engine("gaussian").run(progg).state.quad_expectation(k, phi)
+            if abs(mean - mg) > 4e-2 or abs(var - vg) > 6e-2:
+                bad(f"{label}: the sampling distribution has mean {mean:.4f}, variance {var:.4f}; the Born distribution of x_phi has mean {mg:.4f}, variance {vg:.4f}")
+                continue
+            outcome = grid[rec["idx"]]
+            if abs(res.samples[0, 0] - outcome) > 1e-9:
+                bad(f"{label}: reported sample {res.samples[0, 0]:.5f} is not the drawn outcome {outcome:.5f}")
+            # conditional state of the other mode: gaussian simulator post-selected on the same value
+            progs = sf.Program(n)
+            with progs.context as q:
+                prep(q, n)
+                ops.MeasureHomodyne(phi, select=float(outcome)) | q[k]
+            ref = sf.Engine("gaussian").run(progs).state
+            o = 1 - k
+            a = np.array([res.state.quad_expectation(o, ph) for ph in (0.0, np.pi / 2, 0.6)])
+            b = np.array([ref.quad_expectation(o, ph) for ph in (0.0, np.pi / 2, 0.6)])
+            if not np.allclose(a, b, atol=6e-2):
+                bad(f"{label}: mode {o} is not left in the state conditioned on the reported outcome {outcome:.3f}: moments {np.round(a, 3).tolist()} vs {np.round(b, 3).tolist()}")
+
+
 def check_fock_measure():
     cut = 3
     rng = np.random.RandomState(seed)
@@ -279,7 +339,7 @@ def check_collation():
 
 
 if __name__ == "__main__":
-    for f in (check_gaussian_rng, check_fock_measure, check_cross_backend_postselect, check_collation):
+    for f in (check_gaussian_rng, check_fock_homodyne_rng, check_fock_measure, check_cross_backend_postselect, check_collation):
         try:
             f()
         except Exception:
